@@ -722,9 +722,11 @@ backoff) and the decoder as written; what a loop pushes goes into the queue with
 `SetOffset(o)` (also the lazy start), a blocking call of any fetcher's loop — current or superseded — returning with
 whatever the world does, `FetchMessage`. -/
 
-/-- every reachable state of the system satisfies the invariant the theorems below start from -/
+/-- every reachable state of the system satisfies the invariant the theorems below start from.  `OkRun`: a first offset
+the broker reports is not above a stored record (`Env.ok`), and the `l` of a `setOffsetLast l` is what the broker then
+reports as log end to that fetcher (`CEv.okAt`). -/
 theorem reader_reachable (cfg : RCfg) (items : List Item) (nb : Int) (hnb : 0 ≤ nb) (hwf : LWF nb items) (es : List CEv)
-    (hok : ∀ e ∈ es, e.ok items) (c : CS) (ms : List Rec) (hr : crun cfg items {} es = some (c, ms)) : CInv items c :=
+    (hok : OkRun cfg items {} es) (c : CS) (ms : List Rec) (hr : crun cfg items {} es = some (c, ms)) : CInv items c :=
   (crun_sim cfg items nb hnb hwf es {} c ms (cinv_init items) hok hr).1
 
 /-- **C02**: in any reachable state of the Reader, after `SetOffset(o)` (an absolute offset or FirstOffset) the
@@ -733,18 +735,35 @@ above `o`: `ms = take |ms| (feed log o)`.  For every well-formed layout of the p
 holes, empty batches), every interleaving of FetchMessage with the loops' steps, every behaviour of broker (under the
 fetch contract), network and clock, whatever the superseded fetchers still do and whatever is still queued. -/
 theorem reader_delivers (cfg : RCfg) (items : List Item) (nb : Int) (hnb : 0 ≤ nb) (hwf : LWF nb items) (c0 c' : CS)
-    (h0 : CInv items c0) (o : Int) (ho : -2 ≤ o ∧ o ≠ -1) (es : List CEv) (hok : ∀ e ∈ es, e.ok items)
+    (h0 : CInv items c0) (o : Int) (es : List CEv) (hok : OkRun cfg items c0 (.setOffset o :: es))
     (hns : ∀ e ∈ es, e.notSet) (ms : List Rec) (hr : crun cfg items c0 (.setOffset o :: es) = some (c', ms)) :
     ms = (feed (allRecords items) o).take ms.length := by
-  obtain ⟨es', hn, hf⟩ := crun_after_set cfg items nb hnb hwf c0 c' h0 o ho es hok hns ms hr
+  obtain ⟨es', hn, hf⟩ := crun_after_set cfg items nb hnb hwf c0 c' h0 o es hok hns ms hr
   exact setoffset_delivers (allRecords items) c0.fs c'.fs h0.finv o es' hn ms hf
+
+/-- … and after `SetOffset(LastOffset)` (or for a Reader configured to start there): the messages returned are, in order,
+without gap or repetition, the stored records at or above the log end `l` the broker reported when the fetcher first
+connected — through every later fault and reconnect (the loop reconnects at absolute offsets from then on). -/
+theorem reader_delivers_last (cfg : RCfg) (items : List Item) (nb : Int) (hnb : 0 ≤ nb) (hwf : LWF nb items) (c0 c' : CS)
+    (h0 : CInv items c0) (l : Int) (es : List CEv) (hok : OkRun cfg items c0 (.setOffsetLast l :: es))
+    (hns : ∀ e ∈ es, e.notSet) (ms : List Rec) (hr : crun cfg items c0 (.setOffsetLast l :: es) = some (c', ms)) :
+    ms = (feed (allRecords items) l).take ms.length := by
+  obtain ⟨es', hn, hf⟩ := crun_after_set_last cfg items nb hnb hwf c0 c' h0 l es hok hns ms hr
+  exact setoffset_delivers (allRecords items) c0.fs c'.fs h0.finv l es' hn ms hf
 
 /-- … from the very start: a Reader configured with start offset `o` -/
 theorem reader_delivers_from_start (cfg : RCfg) (items : List Item) (nb : Int) (hnb : 0 ≤ nb) (hwf : LWF nb items) (c' : CS)
-    (o : Int) (ho : -2 ≤ o ∧ o ≠ -1) (es : List CEv) (hok : ∀ e ∈ es, e.ok items) (hns : ∀ e ∈ es, e.notSet)
+    (o : Int) (es : List CEv) (hok : OkRun cfg items {} (.setOffset o :: es)) (hns : ∀ e ∈ es, e.notSet)
     (ms : List Rec) (hr : crun cfg items {} (.setOffset o :: es) = some (c', ms)) :
     ms = (feed (allRecords items) o).take ms.length :=
-  reader_delivers cfg items nb hnb hwf {} c' (cinv_init items) o ho es hok hns ms hr
+  reader_delivers cfg items nb hnb hwf {} c' (cinv_init items) o es hok hns ms hr
+
+/-- a Reader started at LastOffset: the broker reports log end 5 on the first connection; after a lost connection the
+second `initialize` reports 10 — irrelevant, the loop reconnects at its absolute offset; FetchMessage returns 5, 9 -/
+example : (crun {} [.b2 3 4 false 24 [(0, 1, 12), (1, 2, 12)], .b2 5 9 true 30 [(0, 3, 20), (4, 4, 20)]] {}
+    [.setOffsetLast 5, .env 1 (.initOk 3 5), .env 1 .sleepOk, .env 1 (.lost 70 10 false), .env 1 .sleepOk,
+     .env 1 (.initOk 3 10), .env 1 .sleepOk, .env 1 (.fetch 1000 10 false), .fetch, .fetch]).map (·.2)
+    = some [(5, 3), (9, 4)] := by decide
 
 /-- a run of the whole system: start at FirstOffset, a fetch round, SetOffset(5) while two messages are queued, the
 superseded loop still pushes a round, the new one starts inside the compressed batch; FetchMessage returns 5, 9 -/
@@ -759,7 +778,9 @@ example : (crun {} [.b2 3 4 false 24 [(0, 1, 12), (1, 2, 12)], .b2 5 9 true 30 [
 first fetcher at `Offset()`): in every reachable state, whatever the loops, the broker, the network and the superseded
 fetchers have done and do,
 * `FetchMessage` returns **the first stored record at or above `Offset()`**, and `Offset()` becomes its offset + 1;
-* `SetOffset(o)` makes `Offset() = o`, a step of a loop leaves it alone.
+* `SetOffset(o)` makes `Offset() = o`, a step of a loop leaves it alone;
+* after `Close` nothing is handed out any more (FetchMessage = io.EOF, SetOffset = io.ErrClosedPipe: the state does not
+  move), whatever is still queued and whatever the loops still push while they wind down.
 Exactly-once, in-order, gap-free delivery from the position is the iteration of the first clause. -/
 theorem reader_api (cfg : RCfg) (items : List Item) (nb : Int) (hnb : 0 ≤ nb) (hwf : LWF nb items) (o : Int)
     (ho : -2 ≤ o ∧ o ≠ -1) (es : List AEv) (hok : ∀ e ∈ es, e.ok items) (a : AS) (ms : List Rec)
@@ -773,5 +794,11 @@ example : (arun {} [.b2 3 4 false 24 [(0, 1, 12), (1, 2, 12)], .b2 5 9 true 30 [
     [.fetch, .env 1 (.initOk 3 10), .env 1 .sleepOk, .env 1 (.fetch 10 10 false), .fetch, .fetch, .setOffset 5,
      .env 1 .sleepOk, .env 1 (.fetch 1000 10 false), .setOffset 9, .env 2 (.initOk 3 10), .env 2 .sleepOk,
      .env 2 (.fetch 10 10 true), .fetch]).map (fun p => (p.2, p.1.pos)) = some ([(3, 1), (4, 2), (9, 4)], 10) := by decide
+
+/-- a run with Close: two messages, Close, the loop still pushes a round, FetchMessage hands out nothing more -/
+example : (arun {} [.b2 3 4 false 24 [(0, 1, 12), (1, 2, 12)], .b2 5 9 true 30 [(0, 3, 20), (4, 4, 20)]] { pos := -2 }
+    [.fetch, .env 1 (.initOk 3 10), .env 1 .sleepOk, .env 1 (.fetch 10 10 false), .fetch, .fetch, .close,
+     .env 1 .sleepOk, .env 1 (.fetch 1000 10 false), .fetch, .setOffset 3, .fetch]).map (fun p => (p.2, p.1.pos, p.1.closed))
+    = some ([(3, 1), (4, 2)], 5, true) := by decide
 
 end KV.C02
